@@ -1905,6 +1905,32 @@ fn parse_record_entry(pair: Pair<Rule>, preserve_comments: bool) -> AnyhowResult
     }
 }
 
+/// Value of the digits of a binary (`radix` 2) or hexadecimal (`radix` 16) literal, prefix and
+/// underscores already removed, rounded to the nearest `f64` (ties to even) for any number of
+/// digits; a value of 2^1024 or more becomes infinity, like `1e999`.
+fn parse_radix_digits(digits: &str, radix: u32) -> Result<f64, &'static str> {
+    if digits.is_empty() {
+        return Err("cannot parse integer from empty string");
+    }
+    let bits = radix.trailing_zeros(); // bits per digit: 1 or 4
+    let mut acc: u128 = 0; // the leading digits, exact
+    let mut scale: f64 = 1.0; // radix^(number of digits left out of `acc`): a power of two, exact (or inf)
+    let mut sticky = false; // is any digit left out of `acc` non-zero?
+    for c in digits.chars() {
+        let d = c.to_digit(radix).ok_or("invalid digit found in string")?;
+        if acc >> (128 - bits) == 0 {
+            acc = (acc << bits) | u128::from(d);
+        } else {
+            sticky |= d != 0;
+            scale *= f64::from(radix);
+        }
+    }
+    // Once digits are left out, `acc` holds at least 124 significant bits, far more than the 53
+    // (plus a round bit) that decide the result, so recording "something non-zero was left out"
+    // in its lowest bit makes `as f64` (nearest, ties to even) round as the full integer would.
+    Ok((acc | u128::from(sticky)) as f64 * scale)
+}
+
 // Convert Pest pairs to our AST (without comment preservation)
 pub fn pairs_to_expr(pairs: Pairs<Rule>) -> AnyhowResult<SpannedExpr> {
     pairs_to_expr_inner(pairs, false)
@@ -1936,9 +1962,9 @@ fn pairs_to_expr_inner(pairs: Pairs<Rule>, preserve_comments: bool) -> AnyhowRes
                             (1.0, &num_str[2..])
                         };
                         let cleaned = digits.replace("_", "");
-                        let parsed = i64::from_str_radix(&cleaned, 2)
+                        let parsed = parse_radix_digits(&cleaned, 2)
                             .map_err(|e| anyhow!("Invalid binary number: {}", e))?;
-                        sign * parsed as f64
+                        sign * parsed
                     } else if num_str.starts_with("0x")
                         || num_str.starts_with("-0x")
                         || num_str.starts_with("+0x")
@@ -1952,9 +1978,9 @@ fn pairs_to_expr_inner(pairs: Pairs<Rule>, preserve_comments: bool) -> AnyhowRes
                             (1.0, &num_str[2..])
                         };
                         let cleaned = digits.replace("_", "");
-                        let parsed = i64::from_str_radix(&cleaned, 16)
+                        let parsed = parse_radix_digits(&cleaned, 16)
                             .map_err(|e| anyhow!("Invalid hexadecimal number: {}", e))?;
-                        sign * parsed as f64
+                        sign * parsed
                     } else {
                         // Decimal number (existing logic)
                         num_str
